@@ -52,4 +52,26 @@ PROPS = {
             "Vec::sort on u16 is the ascending sort",
         ],
     },
+    "C05": {
+        "theorems": {
+            "Solstat.Props.C05": [
+                "addressBalance_meets", "addressZero_meets", "boolEqualsBool_meets", "assignUpdateArray_meets",
+                "cacheArrayLength_meets", "incrementDecrement_meets", "multipleRequire_meets", "optimalComparison_meets",
+                "shiftMath_meets", "solidityKeccak256_meets", "solidityMath_meets", "C05_all",
+                "MeetsOn.canonical_reported", "MeetsOn.reported_matches", "isPow2_iff", "isPowerOfTwo_iff",
+                "isPow2LiteralSpec_iff", "mem_uncheckedPrefixLocs", "underUnchecked_mem",
+            ],
+            "Solstat.Props.C01": ["C01", "blocked_empty", "kinds_by_name"],
+        },
+        "obs": [("det", ["--nolines", "address_balance", "address_zero", "bool_equals_bool", "assign_update_array", "cache_array_length",
+                         "increment_decrement", "multiple_require", "optimal_comparison", "shift_math", "solidity_keccak256", "solidity_math"])],
+        "kinds": ["DET"],
+        "groups": ["addressbalance", "addresszero", "boolequalsbool", "assignupdatearray", "cachearraylength", "incrementdecrement",
+                   "multiplerequire", "optimalcomparison", "shiftmath", "soliditykeccak256", "soliditymath"],
+        "assumptions": [
+            "increment_decrement: distinct ++/-- nodes of a file carry distinct locations (IncDecLocsDistinct; evaluated on every input, a failing input is reported as outside the oracle's domain)",
+            "canonical / clearly-non-matching forms as defined in lean/Solstat/Spec/C05.lean (DESIGN.md section 8.1); grey zones are neither",
+            "depends on C01 through the regenerated walker table (theorem blocked_empty)",
+        ],
+    },
 }
